@@ -83,7 +83,7 @@ def run_hb(run, hb_check, weaken_sites):
     """C07: happens-before over the fibre traces"""
     light = not run.thorough()
     exe = build(run, name="irq_drv_hb")
-    trs = run_irq(run, exe=exe, cfgs=[CFGS_QUICK[0], CFGS_QUICK[3], CFGS_QUICK[7]] if light else None, nrandom=100 if light else None, tagp="hb-", validate=False)
+    trs = run_irq(run, exe=exe, cfgs=[CFGS_QUICK[0], CFGS_QUICK[3], CFGS_QUICK[7]] if light else None, nrandom=100 if light else None, tagp="hb-", validate=True)
     for i, t in enumerate(trs):
         hb_check(run, "hb-fibre-%d" % i, t)
     weaken_sites(run, "fibre", trs[0], max_lines=2500)
